@@ -462,6 +462,10 @@ def minify_with(src, O):
 
 
 ORACLE_EXTRA = [
+    'import functools\nfrom dataclasses import dataclass\ndef register(c):\n    return c\n@register\n@functools.total_ordering\n@dataclass(eq=False)\nclass Version:\n    major: int = 0\n    minor: int\n    def __lt__(self, other):\n        return self.major < other.major\n',
+    'import dataclasses\n@register\n@dataclasses.dataclass\nclass P:\n    x: int\n    y: int = 2\n@a.b.dataclass(frozen=True)\n@other\nclass Q:\n    z: str = "s"\n',
+    'import typing\nclass Row(Mixin, typing.NamedTuple):\n    a: int\n    b: str = "b"\nclass Doc(Base, TypedDict, total=False):\n    title: str\nclass Plain(Mixin):\n    c: int = 1\n    d: int\n',
+    'class Outer:\n    class Inner:\n        v: int = 1\n    w: int\n    def m(self, p: int = 1, *a: int, k: str = "k", **kw: int) -> str:\n        q: int = p\n        r: str\n        return q\n',
     'import dataclasses\n@dataclasses.dataclass\nclass A:\n    x: int = 1\n    y: str\nclass B:\n    z: int = 2\n    w: str\ndef f(a: int, b: str = "s") -> None:\n    c: int = 1\n    d: int\n    return None\n',
     'from typing import NamedTuple, TypedDict\nclass P(NamedTuple):\n    x: int\nclass Q(TypedDict):\n    y: int\n@dataclass\nclass R:\n    z: int\n',
     'def f(a, /, b, *, c):\n    return a\nlambda x, /, y: x\n',
